@@ -189,6 +189,55 @@ def breakdown(js, crate):
     return fns
 
 
+INVENTORY_PATH = os.path.join(VERIF, "contracts", "inventory.json")
+_INV = None
+
+
+def inventory():
+    """function names each unit-variant contained when its contracts were written (committed file,
+    regenerated by `vrun.py --inventory` on a tree where every check passes)"""
+    global _INV
+    if _INV is None:
+        try:
+            _INV = json.load(open(INVENTORY_PATH))
+        except Exception:
+            _INV = {}
+    return _INV
+
+
+def unit_fn_names(text):
+    marker_line = text[: text.find("// ===== unit text")].count("\n")
+    return sorted(set(q for (s, e, q) in fn_index(text) if s > marker_line))
+
+
+def reclassify_unknown_callees(res, text, tag):
+    """A function that the contracts have never seen (e.g. a helper a refactoring extracted) has no
+    contract, so its callers cannot be proved whatever it does: a failure in a function that calls
+    such a function — or inside it — is UNDECIDED ("needs contract"), never a violation."""
+    inv = inventory().get(tag)
+    if inv is None:
+        return
+    unknown = [q for q in unit_fn_names(text) if q not in inv]
+    if not unknown:
+        return
+    res["unknown_functions"] = unknown
+    short = set(q.split("::")[-1] for q in unknown)
+    idx = fn_index(text)
+    lines = text.split("\n")
+    keep, moved = [], []
+    for f in res["failures"]:
+        rng = [(s, e) for (s, e, q) in idx if q == f["function"]]
+        body = "\n".join(lines[rng[-1][0] - 1: rng[-1][1]]) if rng else ""
+        calls_unknown = any(re.search(r"\b%s\s*(?:::<[^>]*>)?\(" % re.escape(n), body) for n in short)
+        if f["function"] in unknown or calls_unknown:
+            moved.append(f)
+        else:
+            keep.append(f)
+    if moved:
+        res["failures"] = keep
+        res["needs_contract"] = ["%s (%s)" % (f["function"], f["kind"]) for f in moved]
+
+
 def run_unit(unit_name, template_rel, variant):
     """returns result dict for one unit-variant"""
     tag = unit_name + ("" if not variant else "." + "_".join(list(variant.values())[:2]))
@@ -233,6 +282,8 @@ def run_unit(unit_name, template_rel, variant):
     vr = js.get("verification-results", {})
     sem, other = parse_errors(err or "", text, path)
     res["failures"] = sem
+    reclassify_unknown_callees(res, text, tag)
+    sem = res["failures"]
     res["stderr"] = (err or "")[-6000:]
     if other or vr.get("encountered-vir-error"):
         res["status"] = "undecided"
@@ -243,6 +294,11 @@ def run_unit(unit_name, template_rel, variant):
         res["undecided"] = "resource limit exceeded"
         return res
     failed_fns = [k for k, v in res["functions"].items() if not v["ok"]]
+    if res.get("needs_contract") and not sem:
+        res["status"] = "undecided"
+        res["undecided"] = ("functions unknown to the contracts (%s) are called by / are the functions that fail: %s — "
+                            "needs contract, no verdict" % (", ".join(res.get("unknown_functions", [])), "; ".join(res["needs_contract"])))
+        return res
     if sem or failed_fns or not vr.get("success", False):
         if not sem:
             res["status"] = "undecided"
@@ -281,6 +337,18 @@ def run_units(units, jobs=16):
 
 
 if __name__ == "__main__":
+    if sys.argv[1:] == ["--inventory"]:
+        import glob
+        inv = {}
+        for f in sorted(glob.glob(os.path.join(VERIF, "contracts", "units", "*.vt")) + glob.glob(os.path.join(VERIF, "contracts", "lemmas", "*.vt"))):
+            name = os.path.basename(f)[:-3]
+            for v in extract.variants_of(open(f).read()):
+                tag = name + ("" if not v else "." + "_".join(list(v.values())[:2]))
+                text, _ = extract.generate(f, v, canary=False)
+                inv[tag] = unit_fn_names(text)
+        json.dump(inv, open(INVENTORY_PATH, "w"), indent=0, sort_keys=True)
+        print("inventory written:", len(inv), "unit-variants,", sum(len(x) for x in inv.values()), "functions")
+        sys.exit(0)
     rs = run_units([(os.path.basename(a)[:-3], os.path.relpath(os.path.abspath(a), VERIF)) for a in sys.argv[1:]])
     for r in rs:
         print(r["unit"], r["status"], r["undecided"] or "", "fns=%d" % len(r["functions"]), "canary=%s" % r["canary"],
